@@ -467,6 +467,22 @@ fn eval(a: &[String]) -> String {
       use tyme4rs::tyme::sixtycycle::EarthBranch;
       EarthBranch::from_index(v[0] as isize).get_hide_heaven_stems().iter().map(|h| h.get_heaven_stem().get_index().to_string()).collect::<Vec<String>>().join(" ")
     }
+    "compose_scan" => {
+      // eight characters of instants (every 37 h 11 min over ~3 years, incl. 23:xx) against the four pillars of the instant-level view
+      let mut t = SolarTime::from_ymd_hms(2023, 1, 1, 23, 30, 0);
+      let mut out = "NONE".to_string();
+      for _ in 0..700 {
+        let v = t.get_sixty_cycle_hour();
+        let e = v.get_eight_char();
+        let l = t.get_lunar_hour().get_eight_char();
+        let want = [v.get_year().get_index(), v.get_month().get_index(), v.get_day().get_index(), v.get_sixty_cycle().get_index()];
+        let got = [e.get_year().get_index(), e.get_month().get_index(), e.get_day().get_index(), e.get_hour().get_index()];
+        let got2 = [l.get_year().get_index(), l.get_month().get_index(), l.get_day().get_index(), l.get_hour().get_index()];
+        if want != got || want != got2 { out = format!("{}-{}-{} {}:{} pillars {:?}, eight characters {:?} / via the lunar hour {:?}", t.get_year(), t.get_month(), t.get_day(), t.get_hour(), t.get_minute(), want, got, got2); break; }
+        t = t.next(37 * 3600 + 660);
+      }
+      out
+    }
     "fortune_scan" => {
       // decade / yearly fortunes of births on every 3rd day of 2000-2001 (both genders): ages, years and pillars against the rule
       use tyme4rs::tyme::eightchar::ChildLimit;
